@@ -189,6 +189,145 @@ theorem pipeline_is_counted_in_the_tick_its_last_operator_completes (w0 w1 : Wor
   rw [hne]
   exact (sweep_records_exactly_the_complete_ones w2.store t tr _ hp).1 hall
 
+/-! ### over a whole run: no pipeline is ever recorded twice, and a recorded finish is never revised -/
+
+/-- the pipelines a bookkeeping state knows of -/
+def trackPids (tr : Track) : List Nat := tr.outstanding.map (·.1) ++ tr.finished.map (·.1)
+
+theorem sweep_pids_subset (s : Store) (t : Nat) (hasRes : Bool) (tr : Track) : ∀ x ∈ trackPids (sweep s t hasRes tr), x ∈ trackPids tr := by
+  intro x hx
+  unfold sweep at hx
+  split at hx
+  · exact hx
+  · simp only [trackPids, List.map_append, List.map_map, List.mem_append, List.mem_map, List.mem_filter, Function.comp_apply] at hx ⊢
+    rcases hx with ⟨a, ⟨ha, _⟩, rfl⟩ | ⟨a, ha, rfl⟩ | ⟨a, ⟨ha, _⟩, rfl⟩
+    · exact Or.inl ⟨a, ha, rfl⟩
+    · exact Or.inr ⟨a, ha, rfl⟩
+    · exact Or.inl ⟨a, ha, rfl⟩
+
+theorem arrivals_ok (t : Nat) : ∀ (arr : List (Nat × List Nat)) (tr : Track), TrackOK tr → (arr.map (·.1)).Nodup →
+    (∀ x ∈ trackPids tr, x ∉ arr.map (·.1)) →
+    TrackOK (arr.foldl (fun tr a => arrive tr a.1 t a.2) tr) ∧
+    ∀ x ∈ trackPids (arr.foldl (fun tr a => arrive tr a.1 t a.2) tr), x ∈ trackPids tr ∨ x ∈ arr.map (·.1)
+  | [], tr, h, _, _ => ⟨h, fun x hx => Or.inl hx⟩
+  | a :: arr, tr, h, hnd, hdis => by
+    simp only [List.map_cons, List.nodup_cons] at hnd
+    have hnew : a.1 ∉ tr.outstanding.map (·.1) ∧ a.1 ∉ tr.finished.map (·.1) := by
+      constructor
+      · intro hm; exact hdis a.1 (List.mem_append_left _ hm) (by simp)
+      · intro hm; exact hdis a.1 (List.mem_append_right _ hm) (by simp)
+    have hpids : ∀ x ∈ trackPids (arrive tr a.1 t a.2), x ∈ trackPids tr ∨ x = a.1 := by
+      intro x hx
+      simp only [trackPids, arrive, List.map_append, List.map_cons, List.map_nil, List.mem_append, List.mem_cons, List.not_mem_nil, or_false] at hx ⊢
+      rcases hx with (hx | hx) | hx
+      · exact Or.inl (Or.inl hx)
+      · exact Or.inr hx
+      · exact Or.inl (Or.inr hx)
+    obtain ⟨r1, r2⟩ := arrivals_ok t arr (arrive tr a.1 t a.2) (arrive_ok tr a.1 t a.2 h hnew) hnd.2 (by
+      intro x hx hm
+      rcases hpids x hx with hx | rfl
+      · exact hdis x hx (by simp [hm])
+      · exact hnd.1 hm)
+    refine ⟨r1, fun x hx => ?_⟩
+    rcases r2 x hx with hx | hx
+    · rcases hpids x hx with hx | rfl
+      · exact Or.inl hx
+      · exact Or.inr (by simp)
+    · exact Or.inr (by simp [hx])
+
+/-- one tick of the main loop's bookkeeping, as `runSweep` folds it -/
+def sweepStep (n : Nat) (acc : Track × Nat) (h : TickH) : Track × Nat :=
+  (sweep (storeOf n h.completed) acc.2 h.hasRes (h.arr.foldl (fun tr a => arrive tr a.1 acc.2 a.2) acc.1), acc.2 + 1)
+
+theorem runSweep_eq (n : Nat) (hist : List TickH) : runSweep n hist = (hist.foldl (sweepStep n) ({}, 0)).1 := rfl
+
+theorem history_ok (n : Nat) : ∀ (hist : List TickH) (acc : Track × Nat), TrackOK acc.1 →
+    (hist.flatMap (fun h => h.arr.map (·.1))).Nodup → (∀ x ∈ trackPids acc.1, x ∉ hist.flatMap (fun h => h.arr.map (·.1))) →
+    TrackOK (hist.foldl (sweepStep n) acc).1 ∧ ∀ x ∈ acc.1.finished, x ∈ (hist.foldl (sweepStep n) acc).1.finished
+  | [], acc, h, _, _ => ⟨h, fun x hx => hx⟩
+  | hh :: hist, acc, h, hnd, hdis => by
+    simp only [List.flatMap_cons] at hnd hdis
+    rw [List.nodup_append] at hnd
+    obtain ⟨n1, n2, n3⟩ := hnd
+    obtain ⟨a1, a2⟩ := arrivals_ok acc.2 hh.arr acc.1 h n1 (fun x hx hm => hdis x hx (List.mem_append_left _ hm))
+    have hstep : TrackOK (sweepStep n acc hh).1 := sweep_ok _ _ _ _ a1
+    have hsub : ∀ x ∈ trackPids (sweepStep n acc hh).1, x ∈ trackPids acc.1 ∨ x ∈ hh.arr.map (·.1) :=
+      fun x hx => a2 x (sweep_pids_subset _ _ _ _ x hx)
+    obtain ⟨r1, r2⟩ := history_ok n hist (sweepStep n acc hh) hstep n2 (by
+      intro x hx hm
+      rcases hsub x hx with hx | hx
+      · exact hdis x hx (List.mem_append_right _ hm)
+      · exact n3 x hx x hm rfl)
+    refine ⟨r1, fun x hx => r2 x ?_⟩
+    apply sweep_monotone
+    clear r1 r2 hsub hstep a1 a2
+    generalize acc.1 = tr at hx
+    induction hh.arr generalizing tr with
+    | nil => exact hx
+    | cons a arr ih => exact ih (arrive tr a.1 acc.2 a.2) hx
+
+/-- **counted as completed exactly once, over a whole run.**  For every history of ticks — any arrivals (each pipeline arriving once), any ticks with or
+without results, any operators completed — the bookkeeping of the main loop never holds a pipeline twice: no pipeline is recorded as finished twice,
+none is at once outstanding and finished.  (The per-tick theorems above say *which* pipelines a sweep records; this one lifts "at most once" from one sweep
+to all of them.) -/
+theorem no_pipeline_is_counted_twice_over_a_whole_run (n : Nat) (hist : List TickH)
+    (harr : (hist.flatMap (fun h => h.arr.map (·.1))).Nodup) :
+    ((runSweep n hist).finished.map (·.1)).Nodup ∧
+    ∀ p ∈ (runSweep n hist).outstanding, p.1 ∉ (runSweep n hist).finished.map (·.1) := by
+  rw [runSweep_eq]
+  have h := (history_ok n hist ({}, 0) trackOK_init harr (by intro x hx; simp [trackPids] at hx)).1.nd
+  rw [List.nodup_append] at h
+  exact ⟨h.2.1, fun p hp hm => h.2.2 p.1 (List.mem_map.mpr ⟨p, hp, rfl⟩) p.1 hm rfl⟩
+
+/-- **a recorded completion is never revised**: what the bookkeeping has recorded after a prefix of the run (pipeline, finish tick, latency) is still
+recorded, unchanged, after the whole run. -/
+theorem recorded_completions_are_kept_over_a_whole_run (n : Nat) (hist more : List TickH)
+    (harr : ((hist ++ more).flatMap (fun h => h.arr.map (·.1))).Nodup) :
+    ∀ x ∈ (runSweep n hist).finished, x ∈ (runSweep n (hist ++ more)).finished := by
+  rw [runSweep_eq, runSweep_eq, List.foldl_append]
+  simp only [List.flatMap_append] at harr
+  rw [List.nodup_append] at harr
+  obtain ⟨n1, n2, n3⟩ := harr
+  have h1 := history_ok n hist ({}, 0) trackOK_init n1 (by intro x hx; simp [trackPids] at hx)
+  -- the pipelines known after the prefix all arrived in the prefix
+  have hknown : ∀ (hs : List TickH) (acc : Track × Nat), ∀ x ∈ trackPids (hs.foldl (sweepStep n) acc).1,
+      x ∈ trackPids acc.1 ∨ x ∈ hs.flatMap (fun h => h.arr.map (·.1)) := by
+    intro hs
+    induction hs with
+    | nil => intro acc x hx; exact Or.inl hx
+    | cons hh hs ih =>
+      intro acc x hx
+      rcases ih (sweepStep n acc hh) x hx with hx | hx
+      · have := sweep_pids_subset _ _ _ _ x hx
+        -- arrivals only add their own pipelines
+        have hadd : ∀ (arr : List (Nat × List Nat)) (tr : Track), ∀ y ∈ trackPids (arr.foldl (fun tr a => arrive tr a.1 acc.2 a.2) tr),
+            y ∈ trackPids tr ∨ y ∈ arr.map (·.1) := by
+          intro arr
+          induction arr with
+          | nil => intro tr y hy; exact Or.inl hy
+          | cons a arr iha =>
+            intro tr y hy
+            rcases iha (arrive tr a.1 acc.2 a.2) y hy with hy | hy
+            · simp only [trackPids, arrive, List.map_append, List.map_cons, List.map_nil, List.mem_append, List.mem_cons, List.not_mem_nil, or_false] at hy ⊢
+              rcases hy with (hy | hy) | hy
+              · exact Or.inl (Or.inl hy)
+              · exact Or.inr (Or.inl hy)
+              · exact Or.inl (Or.inr hy)
+            · exact Or.inr (by simp [hy])
+        rcases hadd hh.arr acc.1 x this with h | h
+        · exact Or.inl h
+        · exact Or.inr (by simp only [List.flatMap_cons, List.mem_append]; exact Or.inl h)
+      · exact Or.inr (by simp only [List.flatMap_cons, List.mem_append]; exact Or.inr hx)
+  exact (history_ok n more _ h1.1 n2 (by
+    intro x hx hm
+    rcases hknown hist ({}, 0) x hx with h | h
+    · simp [trackPids] at h
+    · exact n3 x h x hm rfl)).2
+
+/-- non-vacuity: a three-tick history in which a pipeline arrives, completes and is counted once, while a second one stays outstanding -/
+example : (runSweep 3 [{ arr := [(0, [0, 1]), (1, [2])] }, { hasRes := true, completed := [0] }, { hasRes := true, completed := [0, 1] },
+    { hasRes := true, completed := [0, 1] }]).finished = [(0, 2, 2)] := by decide
+
 /-- non-vacuity: a world without containers satisfies `World.OnePipe` -/
 theorem fresh_world_onePipe (cfg : Cfg) (store : Store) (pipes : Array PipeInfo) (caps : List (Nat × Nat)) :
     World.OnePipe { cfg := cfg, store := store, pools := caps.map (fun c => Pool.fresh c.1 c.2), pipes := pipes } := by
